@@ -52,16 +52,26 @@ def auto_off_case(args):
             for i in range(n_conv):
                 if i == skip:
                     continue
-                setattr(user, 'c%d' % i, PITConv2d(getattr(user, 'c%d' % i), PITFeaturesMasker(chans[i + 1])))
+                # the layer's own `fold_bn` constructor option is independent of the option of the conversion,
+                # which decides what is done with the BatchNorm that follows
+                lf = rng.random() < .4
+                out.setdefault('layer_fold', []).append(lf)
+                setattr(user, 'c%d' % i, PITConv2d(getattr(user, 'c%d' % i), PITFeaturesMasker(chans[i + 1]), fold_bn=lf))
             user.fc = PITLinear(user.fc, PITFrozenFeaturesMasker(3))
             fold = rng.random() < .5
             out['fold_bn'] = fold
             x = torch.randn(2, 3, S, S)
             with torch.no_grad():
                 y0 = plain(x)
+                yu0 = user(x)
             pit = PIT(user, input_shape=(3, S, S), autoconvert_layers=False, fold_bn=fold).eval()
             with torch.no_grad():
                 y1 = pit(x)
+                user.eval()
+                yu1 = user(x)
+            d = float((yu0 - yu1).abs().max())
+            out['user_output_changed'] = d if d > 2e-4 * max(1.0, float(yu0.abs().max())) else None
+            with torch.no_grad():
                 e0 = pit.export().eval()
                 pitgen.copy_bn_stats(pit, e0)
                 ye = e0(x)
